@@ -1,17 +1,19 @@
 // ---- lookup stand-in: contracts of the entry points used by the handler (recv_finished is proved in unit `lookup`)
 pub struct TableLookup { pub g: u64 }
+/// C04: what the search would report (defined in unit `lookup`: Ongoing while a query is outstanding or the end-game runs)
+pub uninterp spec fn status_of(l: TableLookup) -> ActionStatus;
 impl TableLookup {
     // proved in unit `lookup` (recv_response / recv_timeout on their real text, the node selection in the middle of recv_response abstracted):
     // a search only sends queries, yields peers, marks nodes and uses its timeouts
     #[verifier::external_body]
-    pub fn recv_response(&mut self, node: Node, trans_id: &TransactionID, msg: Response, socket: &Socket, timer: &mut Timer<ScheduledTaskCheck>, Tracked(tr): Tracked<&mut Trace>) -> (r: ActionStatus)
+    pub fn recv_response(&mut self, node: Node, trans_id: &TransactionID, msg: Response, socket: &Socket, timer: &mut Timer<ScheduledTaskCheck>, Tracked(tr): Tracked<&mut Trace>) -> (res: ActionStatus)
         requires old(timer).wf()
-        ensures only_requests_and_yields(old(tr).ev, final(tr).ev), no_new_refresh(*old(timer), *final(timer))
+        ensures only_requests_and_yields(old(tr).ev, final(tr).ev), no_new_refresh(*old(timer), *final(timer)), res == status_of(*final(self))
     { unimplemented!() }
     #[verifier::external_body]
-    pub fn recv_timeout(&mut self, trans_id: &TransactionID, socket: &Socket, timer: &mut Timer<ScheduledTaskCheck>, Tracked(tr): Tracked<&mut Trace>) -> (r: ActionStatus)
+    pub fn recv_timeout(&mut self, trans_id: &TransactionID, socket: &Socket, timer: &mut Timer<ScheduledTaskCheck>, Tracked(tr): Tracked<&mut Trace>) -> (res: ActionStatus)
         requires old(timer).wf()
-        ensures only_requests_and_yields(old(tr).ev, final(tr).ev), no_new_refresh(*old(timer), *final(timer))
+        ensures only_requests_and_yields(old(tr).ev, final(tr).ev), no_new_refresh(*old(timer), *final(timer)), res == status_of(*final(self))
     { unimplemented!() }
     // proved in unit `lookup` (recv_finished sends only announce_peer requests)
     #[verifier::external_body]
